@@ -62,6 +62,12 @@ def run(chk):
     r6 = chk.rule("R01.6", "sibling evaluation paths: DailyModel._predict_submodel and OptimizedResult.eval are the same evaluation", 1)
     r7 = chk.rule("R01.7", "coefficient-vector conventions: the five coef_id sequences agree position by position at every writer/reader site", 25)
     r8 = chk.rule("R01.8", "integer dictionary keys written to JSON are restored by the reader before they are compared with integers", 2)
+    r10 = chk.rule("R01.10", "the state a model predicts from is its own: no model class keeps mutable state on the class (shared by the original, the reloaded copy and every other model in the process) and writes it through an instance", 1)
+    from rules import classstate
+    from rules.common import BILLING_MODEL, CALTRACK_WRAPPER, DAILY_MODEL, WEIGHTED_MODEL
+    _fams = [chk.repo.cls(*x) for x in (DAILY_MODEL, BILLING_MODEL, WEIGHTED_MODEL, HOURLY_MODEL, CALTRACK_WRAPPER)]
+    _fams += [c for c in chk.res.all_classes() if c.module.name.startswith("opendsm.eemeter.models.hourly_caltrack") and c not in _fams]
+    classstate.report(chk, r10, _fams, what="loading or building another model changes what this one predicts, so a stored model no longer reproduces the original")
 
     # ================================================================== hourly
     hm = chk.repo.cls(*HOURLY_MODEL)
